@@ -42,7 +42,13 @@ Record stream := mkstream {
 Definition set_imol (s : stream) (r : ref) := mkstream r (tc s) (price s) (cf s) (sid_ s) (thermo s).
 Definition set_tc (s : stream) (r : ref) := mkstream (imol s) r (price s) (cf s) (sid_ s) (thermo s).
 
-Record state := mkstate { hp : heap; ss : list stream }.
+(* The derived-flow views (imass / ivol) live in the dict `_data_cache` of an indexer object.  That dict is an
+   object of its own: link_with can make two indexers hold the SAME dict, unlink gives the indexer a new empty one,
+   _expand_phases clears it in place.  It is modelled as a second layer over the heap: [cmap] binds an indexer
+   reference to the number of its dict (an indexer without binding has a private dict that nothing else holds and
+   that is still empty), [caches] gives for every dict the rows its 'mass' view wraps (None = no 'mass' entry).
+   The view wraps the row OBJECTS that were the data of the indexer when the view was created. *)
+Record state := mkstate { hp : heap; ss : list stream; cmap : list (ref * nat); caches : list (option (list ref)) }.
 
 (* ---------- phases: 'L'=0 'S'=1 'g'=2 'l'=3 's'=4 (ASCII order); 'G'=5, 'q'=6, 'Q'=7 are not valid ---------- *)
 Definition valid_phase (p : nat) : bool := Nat.leb p 4%nat.
@@ -92,6 +98,8 @@ Definition zero_like (v : vec) : vec := map (fun _ => 0) v.
 Section WithPackages.
 (* the property packages: chemicals (identified by a number standing for the CAS) in package order *)
 Variable pk : list (list nat).
+(* molecular weight of every chemical (by chemical number) *)
+Variable mws : list Q.
 Definition chems (k : nat) : list nat := nth k pk [].
 Definition zeros (k : nat) : vec := vzero (length (chems k)).
 
@@ -565,21 +573,22 @@ Inductive op :=
 | OSetFlow (i r c : nat) (v : Q) | OSetT (i : nat) (v : Q) | OSetP (i : nat) (v : Q)
 | OSetPhase (i p : nat) | OSetPhases (i : nat) (phs : list nat) | OScale (i : nat) (k : Q) | OEmpty (i : nat)
 | OReduce (i : nat)
+| OReadMass (i : nat) | OSetMass (i r c : nat) (v : Q)
 | OSkip.
 
 Definition creator (st : state) (r : res (heap * stream)) : state * option err :=
   match r with
-  | Ok (h, s) => (mkstate h (ss st ++ [s]), None)
+  | Ok (h, s) => (mkstate h (ss st ++ [s]) (cmap st) (caches st), None)
   | Err e => (st, Some e)
   end.
 Definition on1 (st : state) (i : nat) (f : heap -> stream -> oret) : state * option err :=
   match nth_error (ss st) i with
-  | Some s => let '(h, s', e) := f (hp st) s in (mkstate h (upd (ss st) i s'), e)
+  | Some s => let '(h, s', e) := f (hp st) s in (mkstate h (upd (ss st) i s') (cmap st) (caches st), e)
   | None => (st, Some EIndex)
   end.
 Definition on2 (st : state) (i j : nat) (f : heap -> stream -> stream -> oret) : state * option err :=
   match nth_error (ss st) i, nth_error (ss st) j with
-  | Some s, Some o => let '(h, s', e) := f (hp st) s o in (mkstate h (upd (ss st) i s'), e)
+  | Some s, Some o => let '(h, s', e) := f (hp st) s o in (mkstate h (upd (ss st) i s') (cmap st) (caches st), e)
   | _, _ => (st, Some EIndex)
   end.
 Definition new1 (st : state) (i : nat) (f : heap -> stream -> res (heap * stream)) : state * option err :=
@@ -588,18 +597,116 @@ Definition new1 (st : state) (i : nat) (f : heap -> stream -> res (heap * stream
   | None => (st, Some EIndex)
   end.
 
+(* ---------- the _data_cache layer ---------- *)
+Fixpoint lookup (r : ref) (m : list (ref * nat)) : option nat :=
+  match m with [] => None | (k, c) :: t => if Nat.eqb k r then Some c else lookup r t end.
+Definition unbind (r : ref) (m : list (ref * nat)) : list (ref * nat) :=
+  filter (fun kc => negb (Nat.eqb (fst kc) r)) m.
+(* rows wrapped by the 'mass' view in the dict of indexer r, if there is one *)
+Definition view_of (st : state) (r : ref) : option (list ref) :=
+  match lookup r (cmap st) with Some c => nth c (caches st) None | None => None end.
+(* by_mass: the cached view, else a new view over the current data rows, stored in the dict *)
+Definition by_mass (st : state) (s : stream) : state * list ref :=
+  match view_of st (imol s) with
+  | Some rows => (st, rows)
+  | None =>
+    let rows := data_rows (hp st) s in
+    match lookup (imol s) (cmap st) with
+    | Some c => (mkstate (hp st) (ss st) (cmap st) (upd (caches st) c (Some rows)), rows)
+    | None => (mkstate (hp st) (ss st) ((imol s, length (caches st)) :: cmap st) (caches st ++ [Some rows]), rows)
+    end
+  end.
+(* imol._data_cache = {} *)
+Definition cache_reset (st : state) (r : ref) : state := mkstate (hp st) (ss st) (unbind r (cmap st)) (caches st).
+(* self._imol._data_cache = other._imol._data_cache *)
+Definition cache_share (st : state) (r o : ref) : state :=
+  if Nat.eqb r o then st else
+  match lookup o (cmap st) with
+  | Some c => mkstate (hp st) (ss st) ((r, c) :: unbind r (cmap st)) (caches st)
+  | None => mkstate (hp st) (ss st) ((r, length (caches st)) :: (o, length (caches st)) :: unbind r (cmap st))
+                    (caches st ++ [None])
+  end.
+(* self._data_cache.clear() *)
+Definition cache_clear (st : state) (r : ref) : state :=
+  match lookup r (cmap st) with
+  | Some c => mkstate (hp st) (ss st) (cmap st) (upd (caches st) c None)
+  | None => st
+  end.
+Definition phs_at (h : heap) (r : ref) : option (list nat) :=
+  match nth_error h r with Some (CIdxM _ phs _) => Some phs | _ => None end.
+Definition pkg_at (h : heap) (r : ref) : nat :=
+  match nth_error h r with Some (CIdxC k _ _) => k | Some (CIdxM k _ _) => k | _ => O end.
+Definition mw_vec (k : nat) : vec := map (fun c => nth c mws 0) (chems k).
+
+(* link_with: the dict is shared exactly when TP and flow and (phase or 2-d data), otherwise replaced by {} *)
+Definition link_step (st : state) (i j : nat) (fl ph tp : bool) : state * option err :=
+  match nth_error (ss st) i, nth_error (ss st) j with
+  | Some s, Some o =>
+    let multi := is_multi (hp st) s in
+    let '(st1, e) := on2 st i j (fun h s o => link_with h s o fl ph tp) in
+    match e with
+    | Some _ => (st1, e)
+    | None => (if tp && fl && (ph || multi) then cache_share st1 (imol s) (imol o) else cache_reset st1 (imol s), None)
+    end
+  | _, _ => (st, Some EIndex)
+  end.
+(* unlink: `imol._data_cache = {}` sits before the copy of the thermal condition, which may raise *)
+Definition unlink_step (st : state) (i : nat) : state * option err :=
+  match nth_error (ss st) i with
+  | Some s =>
+    let '(st1, e) := on1 st i unlink in
+    (match e with Some EOther => st1 | _ => cache_reset st1 (imol s) end, e)
+  | None => (st, Some EIndex)
+  end.
+(* copy_like: _expand_phases (recognised by the phases of the indexer object having changed) clears the dict *)
+Definition copy_like_step (st : state) (i j : nat) : state * option err :=
+  match nth_error (ss st) i with
+  | Some s =>
+    let before := phs_at (hp st) (imol s) in
+    let '(st1, e) := on2 st i j copy_like in
+    let after := phs_at (hp st1) (imol s) in
+    (match before, after with
+     | Some a, Some b => if same_phases a b then st1 else cache_clear st1 (imol s)
+     | _, _ => st1
+     end, e)
+  | None => (st, Some EIndex)
+  end.
+Definition read_mass_step (st : state) (i : nat) : state * option err :=
+  match nth_error (ss st) i with
+  | Some s => (fst (by_mass st s), None)
+  | None => (st, Some EIndex)
+  end.
+(* s.imass.data[r, c] = v : lands, divided by MW, in the row the view wraps *)
+Definition set_mass_step (st : state) (i r c : nat) (v : Q) : state * option err :=
+  match nth_error (ss st) i with
+  | Some s =>
+    let (st1, rows) := by_mass st s in
+    match nth_error rows r with
+    | Some x =>
+      let h := hp st1 in
+      let m := nthq (mw_vec (pkg_at h (imol s))) c in
+      (mkstate (wr h x (CVec (upd (rdvec h x) c (v / m)))) (ss st1) (cmap st1) (caches st1), None)
+    | None => (st1, Some EIndex)
+    end
+  | None => (st, Some EIndex)
+  end.
+(* what s.imass reads: the cached view's rows (or the current rows) times MW *)
+Definition mass_obs (st : state) (s : stream) : list vec :=
+  let rows := match view_of st (imol s) with Some rows => rows | None => data_rows (hp st) s end in
+  map (fun r => vmul (rdvec (hp st) r) (mw_vec (pkg_at (hp st) (imol s)))) rows.
+
 Definition step (st : state) (o : op) : state * option err :=
   match o with
   | ONewS i k p v T P pr c => creator st (new_single (hp st) i k p v T P pr c)
   | ONewM i k phs fl T P pr c => creator st (new_multi (hp st) i k phs fl T P pr c)
   | OCopy i => new1 st i copy
-  | OCopyLike i j => on2 st i j copy_like
+  | OCopyLike i j => copy_like_step st i j
   | OCopyTC i j => on2 st i j copy_tc
   | OCopyPhase i j => on2 st i j copy_phase
   | OFlowProxy i => new1 st i flow_proxy
   | OProxy i => new1 st i proxy
-  | OLink i j fl ph tp => on2 st i j (fun h s o => link_with h s o fl ph tp)
-  | OUnlink i => on1 st i unlink
+  | OLink i j fl ph tp => link_step st i j fl ph tp
+  | OUnlink i => unlink_step st i
   | OSetFlow i r c v => on1 st i (fun h s => set_flow h s r c v)
   | OSetT i v => on1 st i (fun h s => set_T h s v)
   | OSetP i v => on1 st i (fun h s => set_P h s v)
@@ -608,6 +715,8 @@ Definition step (st : state) (o : op) : state * option err :=
   | OScale i k => on1 st i (fun h s => scale h s k)
   | OEmpty i => on1 st i empty
   | OReduce i => new1 st i reduce
+  | OReadMass i => read_mass_step st i
+  | OSetMass i r c v => set_mass_step st i r c v
   | OSkip => (st, None)
   end.
 
@@ -665,8 +774,14 @@ End WithPackages.
 
 (* the two stub packages of the harness: [A,B,C] and [C,A,D,B] *)
 Definition PK : list (list nat) := [[0; 1; 2]; [2; 0; 3; 1]]%nat.
-Definition init : state := mkstate [] [].
-Definition run_eqb (ops : list op) (res : list (option err)) (final : list sobs) : bool :=
-  let (st, es) := run PK init ops in
-  list_eqb oerr_eqb es res && list_eqb sobs_eqb (snapshot st) final.
-Definition run_show (ops : list op) := let (st, es) := run PK init ops in (es, snapshot st, hp st).
+Definition MWS : list Q := [16; 32; 8; 4].
+Definition init : state := mkstate [] [] [] [].
+Definition run_eqb (ops : list op) (res : list (option err)) (final : list sobs)
+           (mass keyed : list (list vec)) : bool :=
+  let (st, es) := run PK MWS init ops in
+  let snap := snapshot st in
+  list_eqb oerr_eqb es res && list_eqb sobs_eqb snap final
+  && list_eqb (list_eqb vapproxb) (map (mass_obs PK MWS st) (ss st)) mass
+  && list_eqb (list_eqb vapproxb) (map o_rows snap) keyed.
+Definition run_show (ops : list op) :=
+  let (st, es) := run PK MWS init ops in (es, snapshot st, map (mass_obs PK MWS st) (ss st), hp st, cmap st, caches st).
